@@ -9,10 +9,10 @@ open Chalk.FixedPoint.Cyc (JE JA MinLe InCache InGraph Def Undef flagAt StackExt
   getElem?_lt_length getElem?_prefix def_or_undef headNode mid_cases mid_at single_cases Rest)
 
 section
-variable {inst : Instance} {P : Nat → Prop} {dom : List Nat} {lvl : Nat → Nat}
+variable {inst : Instance} {P : Nat → Prop} {dom : List Nat} {lvl : Nat → Nat} {fx : Bool}
 variable {s0 st s1 : St} {g : Nat} {old cur : V} {m : Min} {new : List Node}
 
-theorem After.st_node (A : After inst P dom lvl s0 st s1 g old cur m new) {i : Nat} {n : Node}
+theorem After.st_node (A : After inst P dom lvl fx s0 st s1 g old cur m new) {i : Nat} {n : Node}
     (h : st.graph[i]? = some n) : i ≤ s0.graph.length ∧ s1.graph[i]? = some n := by
   rw [A.gt] at h
   cases single_cases _ _ i n h with
@@ -21,7 +21,7 @@ theorem After.st_node (A : After inst P dom lvl s0 st s1 g old cur m new) {i : N
 
 /-- an optimistic outcome of the iteration is justified relative to the state the iteration
     started from (upper bound) -/
-theorem After.top_inG (A : After inst P dom lvl s0 st s1 g old cur m new) (hc : cur = topOf inst g) :
+theorem After.top_inG (A : After inst P dom lvl fx s0 st s1 g old cur m new) (hc : cur = topOf inst g) :
     JV inst (topOf inst g) (Opt inst P (InG inst P st) (topOf inst g)) g := by
   have hw : ∀ {lb : Min} {v : V} {j : Nat}, Wit inst P s1 lb v j →
       Opt inst P (fun k => (∃ n : Node, n ∈ new ∧ n.goal = k ∧ n.solution = topOf inst k) ∨ InG inst P st k) v j := by
@@ -58,15 +58,15 @@ theorem After.top_inG (A : After inst P dom lvl s0 st s1 g old cur m new) (hc : 
       have := A.i1.just i n hn1 (A.hnew n hn).1 hv
       rw [hv] at this
       exact JV.mono (fun j hj => hw hj) this
-  cases A.fact with
-  | inl h =>
-    rw [← hc]
+  rcases A.fact with h | h | h
+  · rw [← hc]
     refine JV.mono (fun j hj => ?_) h.2
     exact (hw hj).mono (fun k hk => hk.elim (hS k) id)
-  | inr h => rw [hc] at h; exact absurd h.1 (topOf_ne_botOf inst g)
+  · rw [hc] at h; exact absurd h.1 (topOf_ne_botOf inst g)
+  · rw [hc] at h; exact absurd h.1 (topOf_ne_ambig inst g)
 
 /-- after a pessimistic outcome the next iteration starts from a smaller relative fixed point -/
-theorem After.restart_sub (A : After inst P dom lvl s0 st s1 g old cur m new) (hb : cur = botOf inst g)
+theorem After.restart_sub (A : After inst P dom lvl fx s0 st s1 g old cur m new) (hb : cur = botOf inst g)
     {s2 : St} (R : Rest s1 s2) (hg2 : s2.graph = s0.graph ++ [headNode s0 g cur]) :
     ∀ k, InG inst P s2 k → InG inst P st k := by
   have hnode2 : ∀ {i : Nat} {n : Node}, s2.graph[i]? = some n →
@@ -74,23 +74,27 @@ theorem After.restart_sub (A : After inst P dom lvl s0 st s1 g old cur m new) (h
     intro i n hn
     rw [hg2] at hn
     exact single_cases _ _ i n hn
-  have hhead : ∀ {n : Node} {x : Nat}, n = headNode s0 g cur → n.goal = x → n.solution = topOf inst x → False := by
-    intro n x e hgo hv
+  -- the head of `s2` holds the pessimistic value: neither optimistic nor `ambig`
+  have hhead : ∀ {n : Node} {x : Nat} {w : V}, n = headNode s0 g cur → n.goal = x →
+      (w = topOf inst x ∨ w = .ambig) → n.solution = w → False := by
+    intro n x w e hgo hw hv
     rw [e] at hgo hv
     have e1 : g = x := hgo
     subst e1
-    have : cur = topOf inst g := hv
-    rw [hb] at this
-    exact topOf_ne_botOf inst g this.symm
-  have htop21 : ∀ x, Def s2 x (topOf inst x) → Def s1 x (topOf inst x) := by
-    intro x hd
+    have e2 : cur = w := hv
+    rw [hb] at e2
+    cases hw with
+    | inl e3 => rw [e3] at e2; exact topOf_ne_botOf inst g e2.symm
+    | inr e3 => rw [e3] at e2; exact botOf_ne_ambig inst g e2
+  have hopt21 : ∀ x w, (w = topOf inst x ∨ w = .ambig) → Def s2 x w → Def s1 x w := by
+    intro x w hw hd
     cases hd with
     | inl h => exact Or.inl (R.inCache.mp h)
     | inr h =>
       obtain ⟨i, n, hn, hgo, hv⟩ := h
       cases hnode2 hn with
       | inl h1 => exact Or.inr ⟨i, n, A.g0 h1.2, hgo, hv⟩
-      | inr h1 => exact (hhead h1.2 hgo hv).elim
+      | inr h1 => exact (hhead h1.2 hgo hw hv).elim
   have hdef2 : ∀ x v, Def st x v → ∃ v', Def s2 x v' := by
     intro x v hd
     cases hd with
@@ -110,9 +114,16 @@ theorem After.restart_sub (A : After inst P dom lvl s0 st s1 g old cur m new) (h
     obtain ⟨v, hv⟩ := hd
     cases hx.unfold with
     | inl h2 =>
-      have : v = topOf inst x := A.i1.defFun (A.step.ext x v hv) (htop21 x h2)
-      rw [this] at hv
-      exact Or.inl hv
+      left
+      cases h2 with
+      | inl h3 =>
+        have : v = topOf inst x := A.i1.defFun (A.step.ext x v hv) (hopt21 x _ (Or.inl rfl) h3)
+        rw [this] at hv
+        exact Or.inl hv
+      | inr h3 =>
+        have : v = .ambig := A.i1.defFun (A.step.ext x v hv) (hopt21 x _ (Or.inr rfl) h3)
+        rw [this] at hv
+        exact Or.inr hv
     | inr h2 =>
       obtain ⟨v', hv'⟩ := hdef2 x v hv
       exact absurd hv' (h2.1 v')
@@ -120,18 +131,25 @@ theorem After.restart_sub (A : After inst P dom lvl s0 st s1 g old cur m new) (h
     refine Or.inr ⟨hu, ?_⟩
     cases hx.unfold with
     | inl h2 =>
-      cases h2 with
-      | inl hc =>
-        have hc1 : InCache s1 x (topOf inst x) := R.inCache.mp hc
-        have ht : Holds P (topOf inst x) x := A.i1.cacheOK x _ hc1
-        cases (A.L.inv.tgt_sub_InG A.L.hP ht).unfold with
-        | inl h => exact absurd h (hu _)
-        | inr h => exact JV.mono (fun j hj => hj.mono (fun k hk => Or.inr hk)) h.2
-      | inr hgph =>
-        obtain ⟨i, n, hn, hgo, hv⟩ := hgph
-        cases hnode2 hn with
-        | inl h1 => exact absurd (Or.inr ⟨i, n, by rw [A.gt]; exact getElem?_prefix h1.2, hgo, hv⟩) (hu _)
-        | inr h1 => exact (hhead h1.2 hgo hv).elim
+      have hcache : ∀ w, (w = topOf inst x ∨ w = .ambig) → Def s2 x w → Holds P (topOf inst x) x := by
+        intro w hw hd
+        cases hd with
+        | inl hc =>
+          have hc1 : InCache s1 x w := R.inCache.mp hc
+          have hh := A.i1.cacheOK x _ hc1
+          cases hw with
+          | inl e => rw [e] at hh; exact hh
+          | inr e => rw [e] at hh; exact hh.elim
+        | inr hgph =>
+          exfalso
+          obtain ⟨i, n, hn, hgo, hv⟩ := hgph
+          cases hnode2 hn with
+          | inl h1 => exact hu _ (Or.inr ⟨i, n, by rw [A.gt]; exact getElem?_prefix h1.2, hgo, hv⟩)
+          | inr h1 => exact hhead h1.2 hgo hw hv
+      have ht : Holds P (topOf inst x) x := h2.elim (hcache _ (Or.inl rfl)) (hcache _ (Or.inr rfl))
+      cases (A.L.inv.tgt_sub_InG A.L.hP ht).unfold with
+      | inl h => exact h.elim (fun h' => absurd h' (hu _)) (fun h' => absurd h' (hu _))
+      | inr h => exact JV.mono (fun j hj => hj.mono (fun k hk => Or.inr hk)) h.2
     | inr h2 => exact JV.mono (fun j hj => hj.mono (fun k hk => Or.inl hk)) h2.2
 
 end
